@@ -526,7 +526,7 @@ def _wrapper_case(repo, it, S, spec):
                         for b in cuts:
                             if a >= b:
                                 continue
-                            for qs in ("PLUS", "MINUS"):
+                            for qs in ("PLUS", "MINUS", "UNSTRANDED"):
                                 inside = [p for p in range(a, b) if p in R]
                                 if not inside:
                                     continue
@@ -547,7 +547,7 @@ def _wrapper_case(repo, it, S, spec):
                         for b in sorted({a + 1, min(L, a + 4), L}):
                             if b <= a:
                                 continue
-                            for rs in ("PLUS", "MINUS"):
+                            for rs in ("PLUS", "MINUS", "UNSTRANDED"):
                                 n += 1
                                 k_, v = run(it, fn, [a, b, S[rs]], {}, obj)
                                 want = sorted(p - shift for p in R[a:b])
